@@ -64,6 +64,7 @@ def mutate(rng, base, others):
     b = bytearray(base)
     r = rng.random()
     n = len(b)
+    if n < 50: r = 0.97          # nothing left to mutate: fall through to the structured generator
     v2 = b.find(b'TZif', 4)
     if r < 0.18:      # bit flips
         for _ in range(rng.choice([1, 1, 2, 3, 8])):
